@@ -197,3 +197,30 @@ ZOO += [
     ('C19-kalman-cache', 'C19', 'filters.py', "    P = _initialize_covariance(trajectory_nominal.iloc[0], position_sd, velocity_sd,\n                               level_sd, azimuth_sd,\n                               error_model, gyro_model, accel_model)",
      "    P = _initialize_covariance(trajectory_nominal.iloc[0], position_sd, velocity_sd,\n                               level_sd, azimuth_sd,\n                               error_model, gyro_model, accel_model)\n    P = getattr(gyro_model, '_P_cache', P)\n    gyro_model._P_cache = P * 0.5"),
 ]
+ZOO += [
+    # ---- C01 strapdown mechanisation
+    ('C01-coriolis-factor', 'C01', '_numba_integrate.py', "        velocity_n[j + 1, 0] = V1 + dv1 + (- (chi2 + Omega2) * V3\n                                           + (chi3 + Omega3) * V2",
+     "        velocity_n[j + 1, 0] = V1 + dv1 + (- (chi2 + Omega2) * V3\n                                           + (chi3) * V2"),
+    ('C01-gravity-alt-sign', 'C01', '_numba_integrate.py', "gravity(lat, alt - 0.5 * V3 * dt)", "gravity(lat, alt + 500 * V3 * dt)"),
+    ('C01-tan-south', 'C01', '_numba_integrate.py', "        tan_lat = sin_lat / cos_lat\n", "        tan_lat = abs(sin_lat) / cos_lat\n"),
+    ('C01-lon-rate-rn', 'C01', '_numba_integrate.py', "        rho1 = V2 / re\n        rho2 = -V1 / rn\n        rho3 = -rho1 * tan_lat\n        chi1 = Omega1 + rho1\n        chi2 = Omega2 + rho2\n        chi3 = Omega3 + rho3\n\n        lla[j + 1, 0]",
+     "        rho1 = V2 / rn\n        rho2 = -V1 / rn\n        rho3 = -rho1 * tan_lat\n        chi1 = Omega1 + rho1\n        chi2 = Omega2 + rho2\n        chi3 = Omega3 + rho3\n\n        lla[j + 1, 0]"),
+    ('C01-dBn-side', 'C01', '_numba_integrate.py', "        np.dot(mat_nb[j], dBb, C)\n        np.dot(dBn, C, mat_nb[j + 1])", "        np.dot(mat_nb[j], dBb, C)\n        np.dot(C, dBn, mat_nb[j + 1])"),
+    ('C01-earth-rate-att', 'C01', '_numba_integrate.py', "        xi[2] = -chi3 * dt\n", "        xi[2] = -rho3 * dt\n"),
+    ('C01-alt-in-radius', 'C01', '_numba_integrate.py', "        rn = re * (1 - earth.E2) / x + alt\n", "        rn = re * (1 - earth.E2) / x\n"),
+    ('C01-coning-incr', 'C15', 'strapdown.py', "        coning = k * np.cross(gyro[:-1], gyro[1:])\n", "        coning = -k * np.cross(gyro[:-1], gyro[1:])\n"),
+]
+ZOO += [
+    # ---- C03 IMU synthesis
+    ('C03-omega2-sign', 'C03', 'sim.py', "    omega[2] = 3 * c - 0.5 * ab\n", "    omega[2] = 3 * c + 0.5 * ab\n"),
+    ('C03-gravity-slope', 'C03', 'sim.py', "        e = a_s.c[0] - np.diff(g_i, axis=0) / dt\n", "        e = a_s.c[0]\n"),
+    ('C03-lon-radius', 'C03', 'sim.py', "        _, _, rp = earth.principal_radii(lat, alt)\n        dlon_spline = CubicSpline(time, velocity_n[:, 1] / rp)",
+     "        _, rp, _ = earth.principal_radii(lat, alt)\n        dlon_spline = CubicSpline(time, velocity_n[:, 1] / rp)"),
+    ('C03-vel-frame', 'C03', 'sim.py', "            mat_in, v_i_spline(time) - np.cross(earth_rate_i, r_i), True)", "            mat_in, v_i_spline(time) - np.cross(r_i, earth_rate_i), True)"),
+    ('C03-f1-sculling', 'C03', 'sim.py', "    f[1] = e - ad\n", "    f[1] = e + ad\n"),
+    ('C03-lat-iter', 'C03', 'sim.py', "            dlat_spline = CubicSpline(time, velocity_n[:, 0] / rn)", "            dlat_spline = CubicSpline(time, velocity_n[:, 0] / (rn - alt + alt0))"),
+    ('C03-alt-sign', 'C03', 'sim.py', "        VU_spline = CubicSpline(time, -velocity_n[:, 2])\n        alt_spline = VU_spline.antiderivative()\n        alt = alt0 + alt_spline(time)",
+     "        VU_spline = CubicSpline(time, -velocity_n[:, 2])\n        alt_spline = VU_spline.antiderivative()\n        alt = alt0 + alt_spline(time) * (1 + 1e-3 * np.sign(lat0))"),
+    ('C03-sine-phase', 'C03', 'sim.py', "             np.deg2rad(velocity_change_phase_offset))", "             np.deg2rad(velocity_change_phase_offset) * (1 + 1e-4))"),
+    ('C03-accel-frame', 'C03', 'sim.py', "        accel = util.mv_prod(mat_ib, v_i_spline(time, 1) - g_i, at=True)", "        accel = util.mv_prod(mat_ib, v_i_spline(time, 1) - g_i * (1 + 1e-4), at=True)"),
+]
